@@ -271,6 +271,37 @@ def rule_A6(text, args, fired):
     fired.append('A6:' + anchor)
     return text
 
+def rule_R20(text, args, fired):
+    """`RECV.iter().find(|&ID| BODY)` over a Vec-valued RECV  ->
+         { let r_find = v_iter_find(&RECV, |ID: &T| -> (r_c: bool) ensures r_c == (PRED) { BODY }, Ghost(|ID: T| PRED)); GHOST r_find }
+    args = [T, PRED (with $x for the closure parameter), optional GHOST proof text].  BODY is the repository's own closure
+    body; v_iter_find (prelude/cli.rs) carries the assumed meaning of slice::Iter::find: the first element the closure
+    accepts, None if it accepts none."""
+    ty, pred = args[0], args[1]
+    ghost = args[2] if len(args) > 2 else ''
+    toks = _tok_code(text)
+    pat = ['.', 'iter', '(', ')', '.', 'find', '(', '|']
+    hits = [i for i in range(len(toks) - len(pat)) if [t.text for t in toks[i:i+len(pat)]] == pat]
+    if len(hits) != 1:
+        raise ExtractError('R20: `.iter().find(|x| ..)` matched %d times' % len(hits))
+    i = hits[0]
+    q = i + len(pat)
+    if toks[q].text == '&': q += 1      # `|&x|` and `|x|` both name one element; the body only auto-derefs it
+    idt = toks[q]
+    if idt.kind != 'id' or toks[q + 1].text != '|':
+        raise ExtractError('R20: closure parameter is not `|ident|` or `|&ident|`')
+    op = i + 6                       # the '(' of find(
+    cl = match_close(toks, op)
+    body = text[toks[q + 1].end:toks[cl].start].strip()
+    rs = _expr_start(toks, i)
+    recv = text[toks[rs].start:toks[i].start]
+    pr = pred.replace('$x', idt.text)
+    rep = '{ let r_find = v_iter_find(&%s, |%s: &%s| -> (r_c: bool) ensures r_c == (%s) { %s }, Ghost(|%s: %s| %s)); %s r_find }' % (
+        recv, idt.text, ty, pr, body, idt.text, ty, pr, ghost.replace('$x', idt.text))
+    text = text[:toks[rs].start] + rep + text[toks[cl].end:]
+    fired.append('R20:iter().find -> v_iter_find')
+    return text
+
 def rule_R8(text, args, fired):
     """`for P in E { B }` over a Vec-valued E  ->  index loop
        `let v_it = E; let mut v_i: usize = 0; while v_i < v_it.len() { let P = v_it[v_i]; v_i += 1; B }`
@@ -517,7 +548,7 @@ def rule_R17lit(text, args, fired):
     return text
 
 AUTO_RULES = [('R13', rule_R13), ('R1', rule_R1), ('R2', rule_R2), ('R3', rule_R3), ('R6', rule_R6), ('R7', rule_R7), ('R12', rule_R12)]
-ARG_RULES = {'R4': rule_R4, 'R5': rule_R5, 'R5i': rule_R5i, 'R10': rule_R10, 'R15': rule_R15, 'A6': rule_A6, 'R8': rule_R8, 'R8s': rule_R8s, 'R8e': rule_R8e}
+ARG_RULES = {'R20': rule_R20, 'R4': rule_R4, 'R5': rule_R5, 'R5i': rule_R5i, 'R10': rule_R10, 'R15': rule_R15, 'A6': rule_A6, 'R8': rule_R8, 'R8s': rule_R8s, 'R8e': rule_R8e}
 
 # ---------------------------------------------------------------- function assembly
 
@@ -958,12 +989,12 @@ def build_unit(verif, repo, template_path, canary=False, soft=False, extra_fns=N
                         state['extra_done'].add(ent)
                         xs = FnSpec(); xs.file, xs.name, xs.tline = xf, xn, i + 1
                         xs.within = xw
-                        if xw: emit('impl %s {\n' % xw, 'TPL', rel)
                         xs.bodyprefix = state['bodyprefix']
                         try:
                             xp = assemble_fn(repo, xs, u.functions, None, stub=True, soft=u.degraded)
                         except ExtractError as e:
                             u.degraded.append('helper %s could not be extracted: %s' % (xn, e)); continue
+                        if xw: emit('impl %s {\n' % xw, 'TPL', rel)
                         u.functions[-1]['fn'] = '::'.join(state['mods'] + [xn]); u.functions[-1]['vname'] = u.functions[-1]['fn']
                         u.functions[-1]['auto_helper'] = True
                         u.degraded.append('new helper fn %s in %s included as an opaque (external_body) function WITHOUT a contract' % (xn, xf))
